@@ -8,14 +8,45 @@ import logging
 import sys
 
 import pjrpc
-from pjrpc.server import AsyncDispatcher, Dispatcher, MethodRegistry, ViewMixin
+from pjrpc.server import AsyncDispatcher, Dispatcher, MethodRegistry, ViewMixin, validators
 
 logging.disable(logging.CRITICAL)
 
 DEFAULT = 'DEFAULT'
 RET = 'RET_OK'
-KEYS = ['p1', 'p2', 'p3', 'p4', 'zz']
-NAMES = ['p1', 'p2', 'p3', 'p4']
+# concrete Python identifiers of the abstract parameter names p1..p4 / the unknown name zz.  They are chosen so that
+# each is a substring of the next one (substring / prefix confusions between parameter names are then visible).
+CONC = {'p1': 'x', 'p2': 'xy', 'p3': 'xyz', 'p4': 'wxyz', 'zz': 'zz', 'na': 'na'}
+ABS = {v: k for k, v in CONC.items()}
+KEYS = [CONC[k] for k in ('p1', 'p2', 'p3', 'p4', 'zz')]
+NAMES = [CONC[k] for k in ('p1', 'p2', 'p3', 'p4')]
+
+
+def to_concrete(scn):
+    c = json.loads(json.dumps(scn))
+    for p in c['sig']:
+        p['name'] = CONC[p['name']]
+    c['ctx']['name'] = CONC[c['ctx']['name']]
+    c['inp']['keys'] = {CONC[k]: v for k, v in c['inp']['keys'].items()}
+    return c
+
+
+def to_abstract(ev):
+    def val(v):
+        return 'n_' + ABS[v[2:]] if isinstance(v, str) and v.startswith('n_') and v[2:] in ABS else v
+    out = []
+    for e in ev:
+        e = dict(e)
+        for f in ('rec', 'kw'):
+            if f in e:
+                e[f] = {ABS.get(k, k): val(v) for k, v in e[f].items()}
+        if 'va' in e:
+            e['va'] = [val(v) for v in e['va']]
+        for f in ('names', 'required'):
+            if f in e:
+                e[f] = sorted(ABS.get(n, n) for n in e[f])
+        out.append(e)
+    return out
 
 
 class Ctx:
@@ -109,11 +140,48 @@ def make(sig, flavour, as_method=False, cached=True):
     else:
         src = 'def m(%s):\n    return _log(%s, None)\n' % (src_params, locs)
     exec(src, ns)
-    _CACHE[key] = (ns['m'], src)
-    return _CACHE[key]
+    if cached:
+        _CACHE[key] = (ns['m'], src)
+    return ns['m'], src
 
 
-def run(scn, loop):
+def _resolve(doc, node):
+    while isinstance(node, dict) and '$ref' in node:
+        cur = doc
+        for part in node['$ref'].lstrip('#/').split('/'):
+            cur = cur[part]
+        node = cur
+    return node
+
+
+def doc_events(methods, pred):
+    """C17: parameter names / required names the generated OpenAPI request schema and OpenRPC params list publish"""
+    from pjrpc.server import specs
+    from pjrpc.server.specs import openapi, openrpc
+    from pjrpc.server.specs.extractors import pydantic as pex
+    out = []
+    try:
+        oa = openapi.OpenAPI(info=openapi.Info(title='t', version='1'), schema_extractor=pex.PydanticSchemaExtractor(exclude_param=pred))
+        doc = json.loads(json.dumps(oa.schema(path='', methods_map={'': methods}), cls=specs.JSONEncoder))
+        item = [v for k, v in doc['paths'].items() if k.endswith('#m')][0]
+        schema = _resolve(doc, item['post']['requestBody']['content']['application/json']['schema'])
+        params = _resolve(doc, schema['properties']['params'])
+        out.append({'ev': 'Doc', 'kind': 'openapi', 'names': sorted(params.get('properties', {})), 'required': sorted(params.get('required', []))})
+    except Exception as e:
+        out.append({'ev': 'DocFail', 'kind': 'openapi', 'exc': type(e).__name__})
+    try:
+        orpc = openrpc.OpenRPC(info=openrpc.Info(title='t', version='1'), schema_extractor=pex.PydanticSchemaExtractor(exclude_param=pred))
+        doc = json.loads(json.dumps(orpc.schema(path='', methods_map={'': methods}), cls=specs.JSONEncoder))
+        meth = [x for x in doc['methods'] if x['name'] == 'm'][0]
+        out.append({'ev': 'Doc', 'kind': 'openrpc', 'names': sorted(p['name'] for p in meth['params']),
+                    'required': sorted(p['name'] for p in meth['params'] if p.get('required'))})
+    except Exception as e:
+        out.append({'ev': 'DocFail', 'kind': 'openrpc', 'exc': type(e).__name__})
+    return out
+
+
+def run(ascn, loop):
+    scn = to_concrete(ascn)
     sig, ctx, flavour, inp = scn['sig'], scn['ctx'], scn['flavour'], scn['inp']
     ev = []
     # ---- params
@@ -122,7 +190,7 @@ def run(scn, loop):
     else:
         params = {k: 'n_' + k for k in KEYS if inp['keys'][k]}
     # ---- spec sanity: direct call on the effective signature
-    eff = [p for p in sig if not (ctx['mode'] in ('byname', 'positional') and p['name'] == ctx['name'])]
+    eff = [p for p in sig if not (ctx['mode'] in ('byname', 'positional', 'excl') and p['name'] == ctx['name'])]
     box = {}
 
     def dlog(loc, self_):
@@ -154,11 +222,14 @@ def run(scn, loop):
         return RET
 
     _CURRENT['log'] = log
+    pred = (lambda name, ann, default: name == ctx['name']) if ctx['mode'] == 'excl' else None
     is_async = flavour == 'coro'
     disp = AsyncDispatcher() if is_async else Dispatcher()
     target = disp.registry if scn['route'] == 'direct' else MethodRegistry()
     if flavour == 'view':
-        m, src = make(sig, flavour, as_method=True)
+        m, src = make(sig, flavour, as_method=True, cached=pred is None)
+        if pred:
+            m = validators.BaseValidator(exclude_param=pred).validate(m)
 
         class V(ViewMixin):
             def __init__(self, context=None):
@@ -170,13 +241,17 @@ def run(scn, loop):
         else:
             target.view(V)
     else:
-        m, src = make(sig, flavour)
-        if ctx['mode'] == 'none':
+        m, src = make(sig, flavour, cached=pred is None)
+        if pred:
+            m = validators.BaseValidator(exclude_param=pred).validate(m)
+        if ctx['mode'] in ('none', 'excl'):
             target.add(m, 'm')
         else:
             target.add(m, 'm', context=ctx['name'], positional=ctx['mode'] == 'positional')
     if scn['route'] == 'merged':
         disp.add_methods(target)
+    if scn.get('doc'):
+        ev.extend(doc_events(list(disp.registry.values()), pred))
     text = json.dumps({'jsonrpc': '2.0', 'id': 1, 'method': 'm', 'params': params})
     try:
         if is_async:
@@ -185,7 +260,7 @@ def run(scn, loop):
             ret = disp.dispatch(text, context=CTX)
     except BaseException as e:  # noqa
         ev.append({'ev': 'Raise', 'type': type(e).__name__})
-        return {'scn': scn, 'ev': ev, 'info': src}
+        return {'scn': ascn, 'ev': to_abstract(ev), 'info': src}
     doc = json.loads(ret[0])
     if 'result' in doc:
         r = 'result' if doc['result'] == RET else 'result_changed'
@@ -193,7 +268,7 @@ def run(scn, loop):
         code = doc['error'].get('code')
         r = 'c_m' + str(-code) if isinstance(code, int) and code < 0 else 'code:' + str(code)
     ev.append({'ev': 'Reply', 'r': r})
-    return {'scn': scn, 'ev': ev, 'info': src}
+    return {'scn': ascn, 'ev': to_abstract(ev), 'info': src}
 
 
 if __name__ == '__main__':
